@@ -6,7 +6,7 @@
    ([wc_ascii wc]: printable ASCII has width 1); [sty] is the style machinery. *)
 From Coq Require Import ZArith List Bool.
 From PTK Require Import Lib.Sx Lib.Py Gen.C10_DisplayMappings Model.C13_Utf8 Model.C10_Screen Model.C10_Producers Model.C10_Wire Model.C10_Print Model.C10_Procs
-     Proofs.C10_TableFacts Proofs.C10_CopyFacts Proofs.C10_RenderFacts Proofs.C10_ProducerFacts Proofs.C10_WireFacts Proofs.C10_PrintFacts Proofs.C10_ProcFacts Proofs.C10_SiteFacts.
+     Proofs.C10_TableFacts Proofs.C10_CopyFacts Proofs.C10_RenderFacts Proofs.C10_ProducerFacts Proofs.C10_WireFacts Proofs.C10_PrintFacts Proofs.C10_ProcFacts Proofs.C10_SiteFacts Proofs.C10_ZweOrder.
 Import ListNotations.
 Open Scope Z_scope.
 
@@ -448,3 +448,46 @@ Theorem C10_vscroll : forall wc sty g M pfx lines vs vs2 app width ri x y last v
      (torigin t = FromCell -> tkind t = KWrite /\ control_free (ttext t) = true)).
 Proof. exact vscroll_stream. Qed.
 Print Assumptions C10_vscroll.
+
+(* ---------------------------------------------------------------- round 7: ordered, whole-text zero-width escapes *)
+
+(* What _copy_body stores into zero_width_escapes (any wrapping, scroll offsets, alignment, line
+   prefixes): the stores are, text for text and IN ORDER, a sub-list of T, where T is the texts of
+   the fragments marked [ZeroWidthEscape] of the visible lines in traversal (screen) order - whole
+   texts; single characters of them once horizontal scroll has exploded the line - with the marked
+   texts of the line prefixes woven in as whole blocks; and every entry of the map is the
+   concatenation, in that order, of the texts stored at its position. *)
+Theorem C10_zwe_entries_ordered : forall wc g pfx lines vs vs2,
+  let P := fun B => match pfx with Some p => exists l w, B = marked_texts (p l w) | None => False end in
+  exists (evs : list zev) (T : list (list Z)),
+    weave P (flat_map (fun l => marked_texts (prep wc g l)) (skipn (Z.to_nat vs) lines)) T /\
+    subseq (map et evs) T /\
+    forall y x, exists here : list (list Z),
+      entry (szwe (copy_body_v wc g pfx lines vs vs2 blank_screen)) y x = concat here /\
+      subseq here (map et evs).
+Proof. exact zwe_entries_ordered_pfx. Qed.
+Print Assumptions C10_zwe_entries_ordered.
+
+(* ... down to the stream: every token that reaches the terminal raw on behalf of displayed content
+   is such an in-order concatenation of whole marked texts (the stores of one screen position).
+   This replaces "pieces, any order, any multiplicity" of C10_raw_only_marked. *)
+Theorem C10_raw_tokens_ordered : forall wc sty g M pfx lines vs vs2 app width ri x y last vis,
+  wc_ascii wc -> pfx_marked M pfx -> (forall l, In l lines -> frags_marked M l) ->
+  let P := fun B => match pfx with Some p => exists l w, B = marked_texts (p l w) | None => False end in
+  exists (evs : list zev) (T : list (list Z)),
+    weave P (flat_map (fun l => marked_texts (prep wc g l)) (skipn (Z.to_nat vs) lines)) T /\
+    subseq (map et evs) T /\
+    forall t, In t (rendered_tokens_v wc sty g pfx lines vs vs2 app width ri x y last vis) ->
+      torigin t = FromZWE ->
+      tkind t = KRaw /\ exists here, ttext t = concat here /\ subseq here (map et evs).
+Proof. exact raw_tokens_ordered. Qed.
+Print Assumptions C10_raw_tokens_ordered.
+
+(* one line that fits: all marked texts are stored, whole and in order *)
+Example C10_zwe_order_example :
+  let wc := fun _ : Z => 1 in
+  let g := mkcfg 10 1 0 0 false 0 0 in
+  szwe (copy_body wc g None [[(ZWE_MARK, [1]); ([], [97]); (ZWE_MARK, [2]); (ZWE_MARK, [3])]] blank_screen)
+  = [(0, [(0, [1]); (1, [2; 3])])].
+Proof. exact zwe_order_example. Qed.
+Print Assumptions C10_zwe_order_example.
